@@ -18,6 +18,11 @@ structure St where
   lastMax : Nat := 0
   dead : Bool := false
   replica : Bool := false
+  lastImg : String := ""
+  prevObsTxid : Option Nat := none   -- position at the previous `state` observation
+  pre : Option (Nat × Chk × String) := none
+  post : Option (Nat × Chk × String) := none
+  awaitPost : Bool := false
   appliedSince : Bool := false   -- a transaction file was applied since the last `state` line
 
 def parseHex64 (s : String) : Option UInt64 :=
@@ -84,6 +89,30 @@ def check (st : St) (op obs : String) : St × String :=
   match f with
   | ["case", _] => ({}, "ok")
   | ["open", role] => ({ st with replica := role == "replica" }, "ok")
+  | ["crash-begin"] => ({ st with pre := some (st.posTxid, st.posChk, st.lastImg), post := none }, "ok")
+  | ["crash-end"] => ({ st with awaitPost := true }, "ok")
+  | ["crashpoint", _] =>
+    let ws := words obs
+    match st.pre, st.post with
+    | some pre, some post =>
+      if (fieldOf ws "open") != some "ok" then (st, s!"FAIL restart fails after a crash: {obs.take 160}") else
+      if ws.contains "nodb" then (st, if pre.1 = 0 then "ok" else "FAIL database lost after a crash") else
+      match (fieldOf ws "pos") >>= parsePos, (fieldOf ws "rchk") >>= parseHex64, fieldOf ws "rimg", fieldOf ws "last", fieldOf ws "next", fieldOf ws "files" with
+      | some (t, c), some rc, some img, some last, some next, some files =>
+        let isPre := t == pre.1 && c == pre.2.1 && (img == pre.2.2 || pre.1 == 0)
+        let isPost := t == post.1 && c == post.2.1 && img == post.2.2
+        let after := ws.any (·.endsWith "(after)")
+        let fparts := files.splitOn ","
+        if !(isPre || isPost) then (st, s!"FAIL recovered state is neither the position before nor after the interrupted operation: {obs.take 200}")
+        else if after && !isPost then (st, "FAIL a transaction whose commit already returned to SQLite was lost by the crash")
+        else if t ≠ 0 && rc ≠ c then (st, "FAIL after recovery the reported checksum differs from the from-scratch checksum")
+        else if t ≠ 0 && !(last.endsWith s!"-{t}:{hex16 c}") then (st, s!"FAIL recovered position is not the newest transaction file: {last}")
+        else if !(fparts.contains "j:-") then (st, "FAIL a hot journal is left after recovery")
+        else if !(fparts.contains "w:-" || fparts.contains "w:0") then (st, "FAIL un-checkpointed WAL content is left after recovery")
+        else if next ≠ "ok" then (st, "FAIL the restarted node cannot take its write lock")
+        else (st, "ok")
+      | _, _, _, _, _, _ => (st, s!"FAIL unreadable state after a crash: {obs.take 160}")
+    | _, _ => (st, "ok")
   | "sapply" :: _ | "txapply" :: _ =>
     if obs.startsWith "ok" then ({ st with appliedSince := true }, "ok") else (st, "ok")
   | "dbw" :: _ | "jw" :: _ | "ww" :: _ =>
@@ -101,13 +130,13 @@ def check (st : St) (op obs : String) : St × String :=
     if (fieldOf ws "exit").isSome then (st, s!"FAIL the store exited on a healthy history: {obs}") else
     match (fieldOf ws "pos") >>= parsePos, (fieldOf ws "pageN") >>= String.toNat?, st.ref with
     | some (t, c), some n, some img =>
-      let st' := { st with posTxid := t, posChk := c, appliedSince := false }
+      let st' := { st with posTxid := t, posChk := c, appliedSince := false, prevObsTxid := if st.ref.isSome && st.prev.isSome then some st.posTxid else none }
       if st.replica && !st.appliedSince && (t ≠ st.posTxid || c ≠ st.posChk) && st.posTxid ≠ 0 then
         (st', "FAIL position changed on a node without write authority although no transaction file was applied")
       else if n ≠ img.length then (st', s!"FAIL database size {n} differs from what SQLite sees ({img.length} pages)")
       else if t ≠ 0 && c ≠ checksum (lockOf st.ps) img then (st', s!"FAIL reported checksum {hex16 c} differs from the from-scratch checksum {hex16 (checksum (lockOf st.ps) img)}")
       else if t < st.posTxid then (st', "FAIL position went backwards")
-      else if !st.replica && t > st.posTxid + 1 then (st', "FAIL position advanced by more than one transaction")
+      else if !st.replica && st.posTxid ≠ 0 && t > st.posTxid + 1 then (st', "FAIL position advanced by more than one transaction")
       else (st', "ok")
     | some (t, c), _, none => ({ st with posTxid := t, posChk := c }, "ok")
     | _, _, _ => (st, "ok")
@@ -121,7 +150,7 @@ def check (st : St) (op obs : String) : St × String :=
       | none => (st, if st.posTxid = 0 then "ok" else "FAIL position set but the log is empty")
       | some (tx, full) =>
         if tx.maxTxid ≠ st.posTxid || tx.post ≠ st.posChk then (st, "FAIL the log does not end at the database's position")
-        else if tx.maxTxid ≤ st.lastMax || full.isNone then ({ st with lastMax := tx.maxTxid }, "ok")
+        else if tx.maxTxid ≤ st.lastMax || full.isNone || st.prevObsTxid != some (tx.maxTxid - 1) || tx.minTxid ≠ tx.maxTxid then ({ st with lastMax := tx.maxTxid }, "ok")
         else
           let st' := { st with lastMax := tx.maxTxid }
           let lock := lockOf st.ps
@@ -137,6 +166,8 @@ def check (st : St) (op obs : String) : St × String :=
             else (st', "ok")
   | ["raw"] =>
     let ws := words obs
+    let st := { st with lastImg := (fieldOf ws "img").getD "" }
+    let st := if st.awaitPost then { st with awaitPost := false, post := some (st.posTxid, st.posChk, st.lastImg) } else st
     match st.ref, (fieldOf ws "chk") >>= parseHex64, fieldOf ws "img" with
     | some img, some c, some d =>
       if img.isEmpty then (st, "ok") else
